@@ -52,6 +52,10 @@ pub fn run(a: &Args) -> i32 {
         out.distinct.len() as u64 + crash.1,
         floor,
         "clean part: one evaluation = one generated history with close+reopen steps (sometimes twice in a row, sometimes with a different format-compatible option set) woven between commits, flushes and compaction rounds; non-trivial = reopened at least once after a compaction changed the table set; distinct = distinct (option signature, level-shape set). crash part: see coverage.crash",
-        out.samples,
+        {
+            let mut s = out.samples;
+            s.extend(crash.2);
+            s
+        },
     )
 }
